@@ -70,12 +70,13 @@ func decodeReuse(rng *rand.Rand, name string, b []byte) (ok bool, dec interface{
 }
 
 type sink struct {
-	w    worker
-	ws   []*tr.Writer
-	n    int
-	seen map[string]struct{}
-	rng  *rand.Rand
-	cnt  map[string]int
+	w     worker
+	ws    []*tr.Writer
+	n     int
+	seen  map[string]struct{}
+	rng   *rand.Rand
+	cnt   map[string]int
+	hangs int
 }
 
 func (s *sink) emit(cls, name string, b []byte, val interface{}, reuse bool, note string) {
@@ -85,9 +86,19 @@ func (s *sink) emit(cls, name string, b []byte, val interface{}, reuse bool, not
 	}
 	s.seen[key] = struct{}{}
 	s.cnt[cls]++
-	rs, died, err := s.w.call(wReq{S: name, B: b64(b), Reuse: reuse, Seed: s.rng.Int63()}, 20*time.Second)
+	if s.hangs >= 6 {
+		return // the decoder hangs on this tree: enough evidence, do not spend the budget waiting
+	}
+	to := 3 * time.Second
+	if len(b) > 1<<16 {
+		to = 60 * time.Second
+	}
+	rs, died, err := s.w.call(wReq{S: name, B: b64(b), Reuse: reuse, Seed: s.rng.Int63()}, to)
 	if err != nil {
 		panic(err)
+	}
+	if strings.HasPrefix(died, "hang") {
+		s.hangs++
 	}
 	if died != "" { // the process would have died: recorded like a panic, with the runtime's message
 		rs.Panic, rs.RPanic = died, died
